@@ -103,13 +103,22 @@ def item_name(item: dict) -> str:
 
 
 def build_item(item: dict, opts: str = "") -> Build:
+    if item["kind"] == "handmade":
+        # the matrix schema's descriptors / reference classes, but message and enum classes built by hand with
+        # the public field API instead of the plugin's output
+        from . import handmade
+
+        b = Build(matrix_protos(), opts)
+        b.full()
+        handmade.install(b)
+        return b
     b = Build(item_protos(item), opts)
     b.full()
     return b
 
 
 def value_items(tier: str, seed: int, n_gen: int, with_inputs: bool = True) -> List[dict]:
-    items: List[dict] = [{"kind": "matrix"}]
+    items: List[dict] = [{"kind": "matrix"}, {"kind": "handmade"}]
     for i in range(n_gen):
         items.append({"kind": "gen", "seed": seed * 100003 + i, "opts": {"services": False}})
     if with_inputs:
